@@ -13,7 +13,7 @@ From SX Require Model.PipelineShape.
 From SX Require Import Base.Net Proofs.PipelineOrder Proofs.PipelineWire.
 From Coq Require Import ZArith.
 From SX Require Import Model.IPNet Model.Targets Model.FileTargets Model.TargetWiring Proofs.FileTargetsProofs Proofs.WiringProofs
-  Proofs.WireCoverage Gen.GroupsTable Gen.TargetWiring Proofs.TargetsTable Properties.C13.
+  Proofs.WireCoverage Proofs.ScanCoverage Gen.GroupsTable Gen.TargetWiring Proofs.TargetsTable Properties.C13.
 Local Open Scope nat_scope.
 
 (* any request stream: the engine adds, drops, duplicates or rewrites nothing on either side *)
@@ -47,6 +47,14 @@ Proof.
   apply C13_scan_faithful. apply (C13_commands_pairs cmd Hin KPortPacket f inp Hc); auto.
 Qed.
 
+(* the same through the generic engine of the application scans (socks, docker, elastic) under startScanEngine:
+   [app_outcome evs ws es] (Proofs/ScanCoverage.v) = ws / es are the targets handed to Scan and the causes of the
+   error records logged, in SOME uncancelled run -- any worker count, capacity, schedule; no probe fails -- that
+   has signalled completion and whose error stream is drained *)
+Theorem C13_app_engine_faithful : forall evs ws es,
+  app_outcome evs ws es -> ws ≡ₚ probes evs /\ es ≡ₚ errors evs.
+Proof. exact app_outcome_exact. Qed.
+
 (* the goroutine structure of the packet pipeline in the current sources is the one Model/Pipeline.v was
    written against (the same pin as C07_shape; here because the theorems above speak about that model) *)
 Theorem C13_pipeline_shape : PipelineShape.shape_ok = true.
@@ -79,6 +87,7 @@ Proof.
 Qed.
 
 Print Assumptions C13_pipeline_shape.
+Print Assumptions C13_app_engine_faithful.
 Print Assumptions C13_engine_faithful.
 Print Assumptions C13_scan_faithful.
 Print Assumptions C13_pairs_error_records.
